@@ -51,7 +51,16 @@ func unwrapError(msg string, err error) error {
 	}
 }
 
-func (self *BinaryConv) readResponseBase(ctx context.Context, p *thrift.BinaryProtocol) (bool, error) {
+func (self *BinaryConv) readResponseBase(ctx context.Context, p *thrift.BinaryProtocol) (ok bool, err error) {
+	// base.BaseResp.FastRead is generated code that trusts its input. The Skip below validates the lengths and
+	// counts of the struct, but not everything FastRead looks at: an unknown field holding an EMPTY list/set/map
+	// whose element type byte is invalid passes Skip (no element is skipped) and makes FastRead's own skip index
+	// a table with a negative type. Malformed input must end in an error, not in a panic of the caller.
+	defer func() {
+		if r := recover(); r != nil {
+			ok, err = false, wrapError(meta.ErrRead, fmt.Sprintf("invalid response base: %v", r), nil)
+		}
+	}()
 	obj := ctx.Value(conv.CtxKeyThriftRespBase)
 	if obj == nil {
 		return false, nil
